@@ -200,7 +200,18 @@ class Body:
         return self._pred
 
     def reachable(self, start=0, removed_nodes=(), removed_edges=()):
-        """set of blocks reachable from `start` (a block or iterable of blocks) avoiding removed nodes/edges"""
+        """set of blocks reachable from `start` (a block or iterable of blocks) avoiding removed nodes/edges. In a helper-inlined
+        view the flag/variant-tag sensitive exploration is used: a helper's `return Err(..)` followed by the caller's `?` must not
+        be read as a path that goes on with the Ok arm (plain reachability would merge the helper's returns)."""
+        if getattr(self, "inlined", 0):
+            key = (start if isinstance(start, int) else tuple(sorted(start)), frozenset(removed_nodes), frozenset(map(tuple, removed_edges)))
+            memo = self.__dict__.setdefault("_reach_memo", {})
+            if key not in memo:
+                memo[key] = frozenset(self.reachable_flags(start, removed_nodes, removed_edges))
+            return set(memo[key])
+        return self._reachable_plain(start, removed_nodes, removed_edges)
+
+    def _reachable_plain(self, start=0, removed_nodes=(), removed_edges=()):
         rn = set(removed_nodes)
         re_ = set(removed_edges)
         starts = [start] if isinstance(start, int) else list(start)
@@ -256,7 +267,7 @@ class Body:
             blocks_seen.add(bb)
             if len(seen) > max_states:
                 # give up precision, stay sound
-                return self.reachable(start, removed_nodes, removed_edges)
+                return self._reachable_plain(start, removed_nodes, removed_edges)
             facts = dict(fz)
             blk = self.blocks[bb]
             for stmt in blk["stmts"]:
@@ -340,23 +351,28 @@ class Body:
                 if d is not None and not d["p"] and d["l"] in tagged and strip_generics(t.get("fn") or "") == "core::ops::try_trait::FromResidual::from_residual":
                     dty = self.locals[d["l"]]["ty"]
                     if dty.startswith("core::result::Result<"):
-                        facts[(d["l"], "tag")] = "Err"
+                        facts[(d["l"], "t", 0)] = "Err"
                     elif dty.startswith("core::option::Option<"):
-                        facts[(d["l"], "tag")] = "None"
+                        facts[(d["l"], "t", 0)] = "None"
                 elif d is not None and not d["p"] and d["l"] in tagged and t.get("args"):
                     fn = strip_generics(t.get("fn") or "")
                     a0 = op_place(t["args"][0])
                     if a0 is not None and not a0["p"]:
-                        tg0 = facts.get((a0["l"], "tag"))
+                        tg0 = facts.get((a0["l"], "t", 0))
                         if fn == "core::ops::try_trait::Try::branch" and tg0 is not None:
-                            facts[(d["l"], "tag")] = "Continue" if tg0 in ("Ok", "Some") else "Break" if tg0 in ("Err", "None") else None
-                            if facts[(d["l"], "tag")] is None:
-                                facts.pop((d["l"], "tag"))
-                            elif (a0["l"], "ptag") in facts and facts[(d["l"], "tag")] == "Continue":
-                                facts[(d["l"], "ptag")] = facts[(a0["l"], "ptag")]
+                            if tg0 in ("Ok", "Some"):
+                                facts[(d["l"], "t", 0)] = "Continue"
+                                for n in (1, 2):
+                                    if (a0["l"], "t", n) in facts:
+                                        facts[(d["l"], "t", n)] = facts[(a0["l"], "t", n)]
+                            elif tg0 in ("Err", "None"):
+                                facts[(d["l"], "t", 0)] = "Break"
                         elif fn in ("core::result::Result::map_err", "core::result::Result::map", "core::option::Option::map", "core::future::into_future::IntoFuture::into_future") and tg0 is not None:
-                            facts[(d["l"], "tag")] = tg0
-                # a `&mut flag` passed to a call could change it: drop facts of locals whose address was taken mutably
+                            facts[(d["l"], "t", 0)] = tg0
+                            if fn.endswith("map_err") and tg0 == "Ok" or fn.endswith("into_future"):
+                                for n in (1, 2):
+                                    if (a0["l"], "t", n) in facts:
+                                        facts[(d["l"], "t", n)] = facts[(a0["l"], "t", n)]
             nf = frozenset(facts.items())
             for v in succs:
                 if v in rn or (bb, v) in re_:
@@ -407,10 +423,12 @@ class Body:
         return set(want)
 
     def _tag_transfer(self, facts, lhs, rv, tagged):
+        """variant tags, three levels deep: ("t",0) the value's own variant, ("t",1) its single payload's, ("t",2) that one's"""
         L = lhs["l"]
+        LV = (0, 1, 2)
         if rv["k"] == "discr":
             pl = rv["place"]
-            tg = facts.get((pl["l"], "tag")) if not [e for e in pl["p"] if e != "*"] else None
+            tg = facts.get((pl["l"], "t", 0)) if not [e for e in pl["p"] if e != "*"] else None
             for k in [k for k in facts if k[0] == L]:
                 facts.pop(k)
             if tg is not None:
@@ -418,41 +436,55 @@ class Body:
                     if nm == tg:
                         facts[(L, "disc")] = int(val)
             return
-        if lhs["p"]:
-            for k in [k for k in facts if k[0] == L and len(k) > 1 and k[1] in ("tag", "ptag", "disc")]:
-                facts.pop(k)
-            return
-        for k in [k for k in facts if k[0] == L and len(k) > 1 and k[1] in ("tag", "ptag", "disc")]:
+        for k in [k for k in facts if k[0] == L and len(k) > 1 and k[1] in ("t", "disc")]:
             facts.pop(k)
+        if lhs["p"]:
+            return
         if rv["k"] == "agg" and rv.get("agg") == "adt":
-            facts[(L, "tag")] = rv.get("variant")
+            facts[(L, "t", 0)] = rv.get("variant")
             if len(rv["ops"]) == 1:
                 pl = op_place(rv["ops"][0])
-                if pl is not None and not pl["p"] and (pl["l"], "tag") in facts:
-                    facts[(L, "ptag")] = facts[(pl["l"], "tag")]
+                c = op_const(rv["ops"][0])
+                if pl is not None and not pl["p"]:
+                    for n in (0, 1):
+                        if (pl["l"], "t", n) in facts:
+                            facts[(L, "t", n + 1)] = facts[(pl["l"], "t", n)]
+                elif c is not None and c.get("variant"):
+                    facts[(L, "t", 1)] = c["variant"]
         elif rv["k"] == "use":
             c = op_const(rv["op"])
             pl = op_place(rv["op"])
             if c is not None and c.get("variant"):
-                facts[(L, "tag")] = c["variant"]
+                facts[(L, "t", 0)] = c["variant"]
             elif pl is not None:
                 if not pl["p"]:
-                    for key in ("tag", "ptag"):
-                        if (pl["l"], key) in facts:
-                            facts[(L, key)] = facts[(pl["l"], key)]
+                    for n in LV:
+                        if (pl["l"], "t", n) in facts:
+                            facts[(L, "t", n)] = facts[(pl["l"], "t", n)]
                 else:
                     pp = [e for e in pl["p"] if not (isinstance(e, dict) and "downcast" in e)]
-                    if len(pp) == 1 and isinstance(pp[0], dict) and pp[0].get("f") == 0 and (pl["l"], "ptag") in facts:
-                        facts[(L, "tag")] = facts[(pl["l"], "ptag")]
+                    if len(pp) == 1 and isinstance(pp[0], dict) and pp[0].get("f") == 0:
+                        for n in (1, 2):
+                            if (pl["l"], "t", n) in facts:
+                                facts[(L, "t", n - 1)] = facts[(pl["l"], "t", n)]
 
-    def reachable_after(self, bb, removed_nodes=(), removed_edges=()):
-        """blocks reachable strictly after executing block `bb` (bb itself only if on a cycle)"""
+    def reachable_after(self, bb, removed_nodes=(), removed_edges=(), flags=False):
+        """blocks reachable strictly after executing block `bb` (bb itself only if on a cycle); flags=True: on the product with
+        constant bool flags and enum variant tags (reachable_flags), which removes paths that contradict a value built earlier"""
         rn = set(removed_nodes)
         starts = [s for s in self.succ[bb] if (bb, s) not in set(removed_edges) and s not in rn]
-        return self.reachable(starts, removed_nodes, removed_edges) if starts else set()
+        if not starts:
+            return set()
+        if flags:
+            return self.reachable_flags(starts, removed_nodes, removed_edges)
+        return self.reachable(starts, removed_nodes, removed_edges)
 
     def live_blocks(self):
-        return self.reachable(0)
+        lv = self.__dict__.get("_live")
+        if lv is None:
+            lv = frozenset(self.reachable(0))
+            self.__dict__["_live"] = lv
+        return set(lv)
 
     @property
     def idom(self):
